@@ -11,6 +11,7 @@ CONSTANTS
   Seq = FALSE
   UseLock = TRUE
   UseGapAtomic = TRUE
+  FinalTestsDone = FALSE
   AbortEnabled = FALSE
 SYMMETRY Perms
 INVARIANT TypeOK
